@@ -105,6 +105,7 @@ func (r *raceLog) poll() string {
 	return string(buf[:n])
 }
 
+var raceAccessRe = regexp.MustCompile(`^(Read|Write|Previous read|Previous write|Atomic read|Atomic write|Previous atomic read|Previous atomic write) at 0x`)
 var raceFnRe = regexp.MustCompile(`(?m)^  (\S+)\(\)$`)
 
 // RaceKey summarises a race report by the innermost ugo function of each of
@@ -113,11 +114,12 @@ func RaceKey(report string) (key string, ok bool) {
 	blocks := strings.Split(report, "\n\n")
 	var tops []string
 	for _, b := range blocks {
-		first := strings.TrimSpace(b)
-		if i := strings.Index(first, "\n"); i >= 0 {
-			first = first[:i]
+		isAccess := false
+		for _, ln := range strings.SplitN(strings.TrimSpace(b), "\n", 4) {
+			if raceAccessRe.MatchString(ln) {
+				isAccess = true
+			}
 		}
-		isAccess := strings.Contains(first, " at 0x") && strings.Contains(first, "by ")
 		if !isAccess {
 			continue
 		}
@@ -126,10 +128,11 @@ func RaceKey(report string) (key string, ok bool) {
 			if strings.Contains(m[1], "github.com/ozanh/ugo") {
 				top = strings.TrimPrefix(m[1], "github.com/ozanh/ugo")
 				top = strings.TrimPrefix(top, "/")
+				top = strings.TrimPrefix(top, ".")
 				break
 			}
 		}
-		if top != "" {
+		if top != "" && !strings.HasPrefix(top, "verif") {
 			ok = true
 		} else {
 			top = "?"
@@ -186,6 +189,18 @@ func Worker(prop, tier string, seed int64, shard, of, runs int, arm string, dead
 		return 2
 	}
 	rl := newRaceLog()
+	// memory watchdog: a runaway workload must not take the sandbox down
+	go func() {
+		var ms runtime.MemStats
+		for {
+			time.Sleep(500 * time.Millisecond)
+			runtime.ReadMemStats(&ms)
+			if ms.HeapAlloc > 6<<30 {
+				fmt.Fprintf(os.Stderr, "memory watchdog: heap %d MiB while executing %s shard %d/%d\n", ms.HeapAlloc>>20, prop, shard, of)
+				os.Exit(3)
+			}
+		}
+	}()
 	res := WorkerResult{Discarded: map[string]int{}, Faults: map[string]int{}, Probes: map[string]int{}}
 	sigs := map[uint64]struct{}{}
 	var pf *os.File
